@@ -2,6 +2,7 @@ package main
 
 import (
 	"encoding/json"
+	"fmt"
 	"flag"
 	"go/token"
 	"math/rand"
@@ -134,6 +135,9 @@ func lifecycle(args []string) {
 			}
 			ownerOf := map[*hx.Unit]string{}
 			for c, us := range ownFiles(units) {
+				if !inNames[c] {
+					continue
+				}
 				for _, u := range us {
 					ownerOf[u] = c
 				}
@@ -154,8 +158,8 @@ func lifecycle(args []string) {
 				perm := rng.Perm(len(names))
 				k := 0
 				for _, i := range perm {
-					if *others > 0 && k >= *others {
-						break
+					if *others > 0 && k >= *others && ownerOf[u] != "" {
+						break // files outside the example directories get every checker
 					}
 					if !seen[names[i]] {
 						add(names[i])
@@ -263,6 +267,7 @@ func loadCorpus(fset *token.FileSet, spec string, rng *rand.Rand) ([]*hx.Unit, i
 		for _, p := range pkgs {
 			if len(p.Errors) != 0 {
 				le++
+				fmt.Fprintf(os.Stderr, "vh: load errors in %s: %v\n", p.ID, p.Errors)
 			}
 		}
 		return hx.Units(fset, pkgs), le
@@ -316,11 +321,17 @@ func applyParams(infos []*linter.CheckerInfo, spec string) {
 	if spec == "" || spec == "default" {
 		return
 	}
+	corner := spec
+	if i := strings.IndexByte(spec, ','); i >= 0 && !strings.Contains(spec[:i], "=") {
+		corner, spec = spec[:i], spec[i+1:]
+	} else if strings.Contains(spec, "=") {
+		corner = ""
+	}
 	for _, in := range infos {
 		for pname, p := range in.Params {
 			switch v := p.Value.(type) {
 			case int:
-				switch spec {
+				switch corner {
 				case "min":
 					p.Value = 0
 				case "one":
@@ -330,7 +341,7 @@ func applyParams(infos []*linter.CheckerInfo, spec string) {
 				}
 				_ = v
 			case bool:
-				switch spec {
+				switch corner {
 				case "min":
 					p.Value = false
 				case "max", "one":
